@@ -223,9 +223,9 @@ func runC16(p *eng.Prog, r *eng.Report, tier string) {
 		for _, rs := range wg.Returns {
 			nr++
 			got := ""
-			if len(rs.Results) == 1 {
+			if res := retResults(wf, rs); len(res) == 1 {
 				rp, _ := wg.Where(rs)
-				got = wf.Norm(rs.Results[0], &rp)
+				got = wf.Norm(res[0], &rp)
 			}
 			c.r.Check("C16.10", wf, "wrapper return", "K: every return of the exported wrapper is the wrapped mapping's own result for the same arguments: "+w.want, rs.Pos(), eng.Glob("*"+strings.TrimPrefix(w.want, "iface."), got), "returns "+got+" ("+itoa(len(rs.Results))+" operands)")
 		}
